@@ -34,6 +34,7 @@ VARIANTS = {
     "fips-asan": dict(fips=True, san="asan"),
     # default SAFE_DATA with the parameter checks compiled out (make SAFE_PARAM=n): the two options are independent in make.inc
     "noparam": dict(fips=False, san=None, make=["SAFE_PARAM=n"]),
+    "fips-noparam": dict(fips=True, san=None, make=["SAFE_PARAM=n"]),
 }
 
 _INC = re.compile(rb'^[ \t]*[%#][ \t]*include[ \t]+["<]([^">]+)[">]', re.M)
